@@ -88,6 +88,13 @@ func behave(mode, rid string) (interface{}, *erpc.Status) {
 		time.Sleep(300 * time.Microsecond)
 	case "slow-beyond-age":
 		time.Sleep(150 * time.Millisecond) // far beyond the context age of the "aged" server (20 ms)
+	case "status-fw":
+		// a handler passing on a framework-coded status (a gateway reporting its backend's connection error, a 404 of its own ...)
+		codes := []int32{erpc.CodeConnClosed, erpc.CodeWriteFailed, erpc.CodeDialFailed, erpc.CodeNotFound, erpc.CodeBadMessage, erpc.CodeInternalServerError, erpc.CodeWrongConn}
+		return nil, erpc.NewStatus(codes[len(rid)%len(codes)], "passed on by the handler", rid)
+	case "slow-beyond-age-102":
+		time.Sleep(150 * time.Millisecond)
+		return nil, erpc.NewStatus(erpc.CodeConnClosed, "backend connection closed", rid)
 	case "badresult":
 		return &unmarshalable{C: make(chan int)}, nil
 	case "bigresult":
@@ -182,7 +189,7 @@ type frame struct {
 }
 
 var callKinds = []string{"call-ok", "call-ok", "call-ok", "call-ctl", "call-typed", "call-status", "call-panic-string", "call-panic-error", "call-panic-status", "call-panic-nil",
-	"call-slow", "call-badresult", "call-bigresult", "call-unknown-route", "call-empty-route", "call-undecodable", "call-wrong-type", "call-unknown-codec",
+	"call-slow", "call-status-fw", "call-badresult", "call-bigresult", "call-unknown-route", "call-empty-route", "call-undecodable", "call-wrong-type", "call-unknown-codec",
 	"call-veto-PostReadCallHeader", "call-veto-PreReadCallBody", "call-veto-PostReadCallBody",
 	"call-wstage-PreWriteReply:panic", "call-wstage-PreWriteReply:error", "call-wstage-PostWriteReply:panic", "call-wstage-PostWriteReply:error"}
 var pushKinds = []string{"push-ok", "push-ok", "push-unknown-route", "push-panic", "push-veto-PostReadPushHeader", "push-veto-PostReadPushBody", "push-empty-route"}
@@ -385,6 +392,8 @@ func main() {
 			for k := 0; k < n; k++ {
 				var kind string
 				switch x := r.Intn(10); {
+				case agedScript && x < 2:
+					kind = "call-slow-beyond-age-102"
 				case agedScript && x < 4:
 					kind = "call-slow-beyond-age"
 				case parked && x < 8:
